@@ -191,6 +191,8 @@ namespace Pistache::Http::Mime
         if (sub == Subtype::Ext || sub == Subtype::Vendor)
         {
             (void)match_until({ ';', '+' }, cursor);
+            if (subToken.size() == 0)
+                raise("Malformed Media type, missing subtype");
             rawSubIndex.beg = subToken.start();
             rawSubIndex.end = subToken.end() - 1;
         }
